@@ -58,6 +58,19 @@ CHECKS = {
              "run is not memory safety.",
         technique="reference-model differential monitoring + sanitizers + coverage-guided fuzzing",
     ),
+    "C05": dict(
+        category="exploration", engine="loggen",
+        text="Generated C++ programs observe the user-supplied formatter and sinks of the real logger: 3 logger types "
+             "per program (sink::sequence of 1-3 recording sinks, filter TYPES from and/or/not over severity_filter "
+             "leaves incl. double negation), 14 statements per logger in both syntactic forms, tagged and untagged, "
+             "0-6 streamed items of 9 kinds; each program is compiled for all 6 compile-time minima and loops over ALL "
+             "threshold vectors; between a statement's markers the events must be exactly nothing or one formatter "
+             "call then one sink call per sequence member in order with the statement's severity, tag and "
+             "concatenated message. ASan/UBSan watch the record/buffer ownership along the << chain.",
+        design_ref="DESIGN.md section 4, C05",
+        note="Programs are sampled (2 quick / 24 thorough); single-threaded, so 'program order' is the event order.",
+        technique="trace monitor over generated programs: event log vs expected event list, under ASan/UBSan",
+    ),
     "C06": dict(
         category="fault_enumeration", engine="fvmodel",
         text="In-process monitor over fixed_vector with instance-counting element types (copyable and move-only; a "
@@ -97,6 +110,31 @@ CHECKS = {
         design_ref="DESIGN.md section 4, C08",
         note="char / wchar_t formatters other than char are not driven; double arguments use values whose %g text is exact.",
         technique="reference-function differential monitoring, exhaustive small-scope enumeration under ASan/UBSan",
+    ),
+    "C09": dict(
+        category="exploration", engine="mtlog",
+        text="std::cout/std::cerr get a deliberately non-thread-safe stream buffer (plain cursor, two-half copy with a "
+             "seeded yield in between, overlap detector on relaxed atomics so that no happens-before edge is added) "
+             "and 2-16 threads log 200-2000 records each through four sink topologies, incl. two logger TYPES sharing "
+             "stdout_mt; an offline checker parses the capture (whole records only, exactly once, per-thread order, "
+             "count); the same workload runs under gcc ThreadSanitizer (thorough: also clang TSan and ASan). Evidence "
+             "reports contended buffer entries and distinct thread orders observed.",
+        design_ref="DESIGN.md section 4, C09",
+        note="Schedules are sampled and perturbed, never exhausted: the claim is 'held on these N schedules'. "
+             "A concurrent flush of the tied std::cout by std::cerr is not counted as a write overlap.",
+        technique="race-detecting stream buffer + offline history checker + ThreadSanitizer, schedule perturbation",
+    ),
+    "C10": dict(
+        category="exploration", engine="loggen",
+        text="Same generated programs as C05, other projection: LAZY (callable invoked) and INS (inserted object's "
+             "operator<< ran) events per statement execution must be empty when the statement is below the compile-time "
+             "minimum or rejected by the runtime filter, and exactly one per streamed callable/object, in stream order "
+             "and before the formatter runs, when it is emitted; each program prints is_same<decltype(L::sev()), "
+             "null_stream> for all severities and the oracle compares with sev < minimum for all 6 minima.",
+        design_ref="DESIGN.md section 4, C10",
+        note="The type-level half is decided only for the configurations that were compiled (6 minima x 6 severities "
+             "x the generated logger types).",
+        technique="trace monitor over generated programs compiled per configuration",
     ),
     "C11": dict(
         category="exploration",
@@ -152,6 +190,17 @@ CHECKS = {
              "printed unwrapped; ASCII texts only.",
         technique="output monitor: cross-stream differential + structural text oracle under ASan/UBSan",
     ),
+    "C16": dict(
+        category="exploration", engine="hashgrid",
+        text="In-process monitor over exhaustive fixed grids: three tuple_operators structs, raw tuples, pairs, "
+             "variants, nested tuple<variant,pair>, shared_ptr, unique_ptr; for all pairs x == y implies equal hashes, "
+             "the six operators equal a hand-written lexicographic comparison, trichotomy; for all triples "
+             "transitivity; per-position and swap sensitivity of the combined hash (collision rate <= 1 %); "
+             "unordered_set/map find every inserted key and only those. ~600k pairs / 9M triples quick.",
+        design_ref="DESIGN.md section 4, C16",
+        note="Grids are fixed (deterministic); the 1 % collision bound has two orders of magnitude of margin (0 measured).",
+        technique="exhaustive grid relation checking (in-process monitor) under ASan/UBSan",
+    ),
     "C17": dict(
         category="exploration", engine="strdrv",
         text="Python oracles (str.split, str.replace incl. the empty pattern, str.startswith, infix.join of the "
@@ -175,6 +224,29 @@ CHECKS = {
         note="After a self-move the pointer may be empty or keep its object (both accepted, but never a leak or a "
              "double destruction).",
         technique="history monitor with instance-registry payload types under ASan/LSan",
+    ),
+    "C19": dict(
+        category="exploration", engine="envdl",
+        text="env: model dict vs nitro::env::get over seeded set/unset/get histories (both overloads, empty values, "
+             "arbitrary bytes). dl: ld --wrap on dlopen/dlclose/dlsym/dlerror prints every loader call of the "
+             "header-only wrapper; a refcount model decides for every dlclose whether it was due (no close while a "
+             "dl object, symbol or copy is alive, exactly one close after the last, never dlclose(NULL)), "
+             "dlopen(RTLD_NOLOAD) probes mapped state after every step, symbols are called after their dl object died, "
+             "failures must raise dl::exception carrying exactly the loader's dlerror text.",
+        design_ref="DESIGN.md section 4, C19",
+        note="Two tiny test libraries built by the check, a missing library and the program itself; histories of "
+             "length 30 over 4+4 slots are sampled.",
+        technique="history monitor with linker-wrapped loader calls and a refcount model under ASan",
+    ),
+    "C20": dict(
+        category="exploration", engine="iteradapt",
+        text="Full finite product {vector, list, deque, map, std::array, built-in array, initializer list, "
+             "fixed_vector} x {lvalue, const, rvalue} x lengths 0..5 (thorough 0..64) x {enumerate, reverse}: exact "
+             "(index, value) sequence, address identity of visited values for lvalue/const ranges, writes read back "
+             "from the container, temporaries iterated under ASan (use-after-scope).",
+        design_ref="DESIGN.md section 4, C20",
+        note="Each container kind is its own case so a sanitizer report is attributed to the kind.",
+        technique="exhaustive small-scope enumeration (in-process monitor) under ASan/UBSan",
     ),
 }
 
@@ -200,7 +272,7 @@ def main():
         })
     m = {
         "version": 1,
-        "setup_cmd": "python3 lib/build.py",
+        "setup_cmd": "python3 bin/setup.py",
         "hooks": {
             "guard": "NITRO_VERIF",
             "enable": "no hooks are needed: every observation point is public (user-supplied sink/formatter/"
@@ -214,6 +286,17 @@ def main():
             {"name": "fvmodel", "path": "harness/fvmodel.cpp", "serves_properties": ["C06", "C07"],
              "kind_free_text": "in-process operation-sequence enumerator for fixed_vector with instrumented element "
                                "types, a bounded-sequence reference model and element-throw fault enumeration"},
+            {"name": "loggen", "path": "lib/loggen.py", "serves_properties": ["C05", "C10"],
+             "kind_free_text": "generator of logging programs + expected event lists; programs are compiled per "
+                               "compile-time minimum with ASan/UBSan and their event logs compared"},
+            {"name": "mtlog", "path": "harness/mtlog.cpp", "serves_properties": ["C09"],
+             "kind_free_text": "multi-threaded logging through racy stream buffers; plain, TSan and ASan builds"},
+            {"name": "hashgrid", "path": "harness/hashgrid.cpp", "serves_properties": ["C16"],
+             "kind_free_text": "exhaustive grids for hash/equality/ordering coherence"},
+            {"name": "envdl", "path": "harness/envdl.cpp", "serves_properties": ["C19"],
+             "kind_free_text": "env/dl history driver with ld --wrap'ped loader calls"},
+            {"name": "iteradapt", "path": "harness/iteradapt.cpp", "serves_properties": ["C20"],
+             "kind_free_text": "enumerate/reverse over the container-kind x value-category x length product"},
             {"name": "strdrv", "path": "harness/strdrv.cpp", "serves_properties": ["C08", "C17"],
              "kind_free_text": "line-per-operation driver for nitro::lang string functions and nitro::format, batched "
                                "with per-operation re-run for crash/hang attribution; Python oracles"},
